@@ -242,3 +242,46 @@ func runDevSim(dir string) {
 		}
 	}
 }
+
+// runFakeScp stands in for scp(1): the code under test runs `scp -q SRC user@ip:DST` (found in
+// PATH).  It records which start-up file is copied and how many console lines the device had
+// received by then, and fails (exit 1) if the configured fault says so.
+func runFakeScp(dir string, args []string) {
+	var cfg simCfg
+	if data, err := os.ReadFile(filepath.Join(dir, "sim.json")); err == nil {
+		json.Unmarshal(data, &cfg)
+	}
+	dst := ""
+	if len(args) > 0 {
+		dst = args[len(args)-1]
+	}
+	what := "other"
+	switch {
+	case strings.Contains(dst, ":/etc/network/routing"):
+		what = "routing"
+	case strings.Contains(dst, ":/etc/network/packet-filter"):
+		what = "iptables"
+	}
+	n := 0
+	if data, err := os.ReadFile(filepath.Join(dir, "transcript")); err == nil {
+		for _, l := range strings.Split(string(data), "\n") {
+			if strings.HasPrefix(l, "L ") {
+				n++
+			}
+		}
+	}
+	fail := cfg.FaultKind == "scpfail_"+what
+	res := "ok"
+	if fail {
+		res = "fail"
+	}
+	if fh, err := os.OpenFile(filepath.Join(dir, "scplog"), os.O_APPEND|os.O_CREATE|os.O_WRONLY, 0644); err == nil {
+		fmt.Fprintf(fh, "S %d %s %s\n", n, what, res)
+		fh.Close()
+	}
+	if fail {
+		fmt.Fprintln(os.Stderr, "scp: "+dst+": No space left on device")
+		os.Exit(1)
+	}
+	os.Exit(0)
+}
